@@ -400,6 +400,13 @@ def run_check(P, argv):
             args = D.get('args')
             cases = []
             if replay_path:
+                # a replay file written by write_replay names the driver whose input it holds
+                try:
+                    rdrv = json.load(open(replay_path)).get('driver')
+                except Exception:
+                    rdrv = None
+                if rdrv and rdrv != dname and any(d['name'] == rdrv for d in P['drivers']):
+                    continue
                 cases += run_driver(dname, replay=replay_path, args=args)
             else:
                 cdir = os.path.join(VERIF, 'corpus', pid)
